@@ -162,26 +162,38 @@ def check_history(ctx: Ctx, rnd):
     set mu, read}); after each read the values must be those of the current parameters."""
     import itertools
     import torch
-    for kind, K in (("weibull", 3), ("invariant", 1)):
+    for kind, K, with_inv, order in (("weibull", 3, True, "rp"), ("weibull", 3, True, "pr"), ("weibull", 3, False, "rp"), ("weibull", 3, False, "pr"),
+                                     ("invariant", 1, True, "rp"), ("invariant", 1, True, "pr")):
         for hist in itertools.product(["shape", "pinv", "mu", "read"], repeat=4):
             if kind == "invariant" and "shape" in hist:
                 continue
-            cur = {"shape": 0.7, "pinv": 0.2, "mu": 1.5}
-            sm = build(kind, K, [cur["shape"]], [cur["pinv"]], [cur["mu"]])
+            if not with_inv and "pinv" in hist:
+                continue
+            cur = {"shape": 0.7, "pinv": 0.2 if with_inv else None, "mu": 1.5}
+            sm = build(kind, K, [cur["shape"]], [cur["pinv"]] if with_inv else None, [cur["mu"]])
             params = {name: p for name, p in sm._parameters.items()}
             byid = {p.id: p for p in params.values()}
             ctx.add("evaluations")
             for step, a in enumerate(hist + ("read",)):
                 if a == "read":
                     rr, pp = reference(kind, K, cur["shape"], cur["pinv"], cur["mu"])
-                    got_r, got_p = sm.rates().reshape(-1).tolist(), sm.probabilities().reshape(-1).tolist()
+                    # both read orders: a reader that asks for the proportions first must not leave the rates stale
+                    try:
+                        if order == "rp":
+                            got_r, got_p = sm.rates().reshape(-1).tolist(), sm.probabilities().reshape(-1).tolist()
+                        else:
+                            got_p, got_r = sm.probabilities().reshape(-1).tolist(), sm.rates().reshape(-1).tolist()
+                    except Exception as e:
+                        ctx.violation(f"C05:{kind}:read-fails", f"{kind}{'' if with_inv else ' (no invariant class)'}: after history {hist[:step]} (read order {order}) "
+                                      f"reading rates / probabilities fails: {type(e).__name__}: {e}", {"kind": kind, "history": hist, "order": order})
+                        break
                     if not close(got_r, rr, 1e-11) or not close(got_p, pp):
                         ctx.violation(f"C05:{kind}:stale-after:{'-'.join(hist[:step])}",
-                                      f"{kind}: after history {hist[:step]} rates()/probabilities() are {got_r}/{got_p}, expected {rr}/{pp}",
-                                      {"kind": kind, "history": hist})
+                                      f"{kind}{'' if with_inv else ' (no invariant class)'}: after history {hist[:step]} (read order {order}) rates()/probabilities() are "
+                                      f"{got_r}/{got_p}, expected {rr}/{pp}", {"kind": kind, "history": hist, "order": order, "invariant": with_inv})
                         break
                 else:
-                    cur[a] = {"shape": cur["shape"] * 1.7, "pinv": min(0.9, cur["pinv"] + 0.15), "mu": cur["mu"] * 0.6}[a]
+                    cur[a] = {"shape": cur["shape"] * 1.7, "pinv": min(0.9, (cur["pinv"] or 0.0) + 0.15), "mu": cur["mu"] * 0.6}[a]
                     byid[a].tensor = torch.tensor([cur[a]])
 
 
@@ -216,9 +228,12 @@ def run(ctx: Ctx):
             for p in (None, 0.0, 0.1, 0.5, 0.95):
                 for mu in (None, 0.25, 3.0):
                     check_point(ctx, "weibull", K, shape, p, mu)
-    for p in (0.0, 0.01, 0.3, 0.9):
+    # admissible proportions close to the ends of (0, 1): the variable class runs at mu / (1 - p)
+    for p in (0.0, 1e-9, 0.01, 0.3, 0.9, 1 - 1e-5, 1 - 1e-7, 1 - 1e-9):
         for mu in (None, 0.5, 4.0):
             check_point(ctx, "invariant", 1, None, p, mu)
+    for p in (1e-9, 1 - 1e-7):
+        check_point(ctx, "weibull", 4, 0.5, p, 2.0)
     for _ in range(50 if ctx.tier == "quick" else 500):
         check_point(ctx, "weibull", rnd.randint(1, 16), 10 ** rnd.uniform(-2, 2), rnd.choice([None, rnd.uniform(0, 0.99)]),
                     rnd.choice([None, 10 ** rnd.uniform(-1, 1)]))
